@@ -93,7 +93,7 @@ def graphs(ctx):
         for deps in itertools.product(subsets, repeat=4):
             yield [(k, list(deps[k])) for k in nodes]
     rng = random.Random("graphs/%s" % ctx.seed)
-    for _ in range(ctx.pick(3000, 60000)):
+    for _ in range(ctx.pick(3000, 200000)):
         n = rng.randint(4, 7)
         nodes = list(range(n))
         rng.shuffle(nodes)
@@ -162,7 +162,7 @@ def expected_sd(I):
 
 
 def renderings_part(ctx):
-    n_ifaces = ctx.pick(70, 600)
+    n_ifaces = ctx.pick(70, 2500)
     k_rend = ctx.pick(3, 6)
     for ident, I in K.family(ctx, n_ifaces, "C07"):
         K.shape_stats(ctx, I)
@@ -257,8 +257,49 @@ def same_object(a, b):
     return K.same_value(c03.reorder_attrs(a), c03.reorder_attrs(b))
 
 
+def qualify_part(ctx):
+    """qualified-reference resolution: the real `qualify` on generated scopes against the Lean model."""
+    import suds.xsd
+    from suds.sax.element import Element
+    rng = random.Random("qualify/%s" % ctx.seed)
+    uris = ["urn:a", "urn:b", "urn:c"]
+    prefixes = ["p", "q", "tns", "xs"]
+    reqs, metas = [], []
+    for _ in range(ctx.pick(1500, 20000)):
+        depth = rng.randint(1, 3)
+        chain, node = [], None
+        for d in range(depth):
+            e = Element("n%d" % d)
+            for p_ in rng.sample(prefixes, rng.randint(0, 2)):
+                e.nsprefixes[p_] = rng.choice(uris)
+            if rng.random() < 0.35:
+                e.expns = rng.choice(uris)
+            if node is not None:
+                node.append(e)
+            chain.append(e)
+            node = e
+        tns = rng.choice(uris + [None])
+        ref = rng.choice(["T", "T", "%s:T" % rng.choice(prefixes), "%s:T" % rng.choice(prefixes), "xml:lang"])
+        defns = node.defaultNamespace()
+        if defns[1] is None:
+            defns = (None, tns)
+        try:
+            real = list(suds.xsd.qualify(ref, node, defns))
+        except Exception as e:
+            real = {"err": "prefix not resolved"} if "not resolved" in str(e) else {"err": str(e)}
+        meta = {"ref": ref, "tns": tns, "ctx": [{"nsp": [[k, v] for k, v in e.nsprefixes.items()], "expns": e.expns}
+                                               for e in reversed(chain)]}
+        ctx.case(common.canon(meta), ":" in ref or any(s_["expns"] for s_ in meta["ctx"]))
+        ctx.dist["qualify:" + ("prefixed" if ":" in ref else "unprefixed")] += 1
+        reqs.append(dict(meta, op="qualify"))
+        metas.append((meta, real))
+    for ans, (meta, real) in zip(ctx.driver.ask(reqs), metas):
+        ctx.compare("qualify-model-vs-suds", meta, real, ans)
+
+
 def run(ctx):
     depsort_part(ctx)
+    qualify_part(ctx)
     renderings_part(ctx)
     ctx.sample({"graph": [[1, [2, 3]], [2, [1]], [3, []]], "note": "D14 witness graph"})
 
